@@ -12,14 +12,19 @@ time (thorough); validation must raise SchemaValidationError whose .errors conta
 injected violation, a message naming the injected element, for every type order.  Resolver
 signatures: every parameter list assembled from a positional prefix, one slot per argument and a
 tail, at every resolver site, judged by an independent oracle (inspect.Signature.bind over every
-call shape the executor can produce).
+call shape the executor can produce); ONE function object assigned to two or three fields with different
+argument sets (same and different types), under every relative field order and every type order, each
+field judged on its own.  Bad names cover the ASCII cases (`__x`, `1x`, `a-b`, empty), non-ASCII letters /
+digits in first and later position (Latin-1, full-width digit, superscript, Greek, astral) and a
+trailing line terminator.
 
 E2 part (model checking).  Breadth-first search over all sequences of <= N operations of the
 documented resolver-assignment API (register_resolver / allow_override, "*", register_default_resolver,
 schema.default_resolver = ..., merge_resolvers, register_subscription, the decorators) and validate(),
 each history replayed on a fresh schema; states are deduplicated on the canonical resolver state +
-memo; invariant in every state: schema.validate() agrees with a fresh
-py_gql.schema.validation.validate_schema(schema), which bypasses the memo.
+memo; invariants in every state: schema.validate() agrees with a fresh
+py_gql.schema.validation.validate_schema(schema), which bypasses the memo; and that fresh verdict names
+exactly the fields whose effective resolver fails the binding oracle.
 """
 import itertools
 import re
@@ -63,6 +68,7 @@ TIME_CAP = {"quick": 150, "thorough": 1500}
 CHUNK = 12
 BAD = "sig:root, ctx"
 BAD2 = "sig:root, ctx, info, surplus"
+SHARED = "sig:root, ctx, info#shared"  # one function object: fits Query.plain, not Query.req / Query.two
 OK = M.OK
 
 
@@ -125,6 +131,9 @@ def cases(tier):
     rc = X.resolver_cases()
     for lo in range(0, len(rc), 8 * CHUNK):
         yield {"fam": "resolver", "lo": lo, "hi": min(len(rc), lo + 8 * CHUNK)}
+    sc = X.shared_resolver_cases()
+    for lo in range(0, len(sc), 2 * CHUNK):
+        yield {"fam": "shared-resolver", "lo": lo, "hi": min(len(sc), lo + 2 * CHUNK)}
     if b["violations_injected"] >= 2:
         n = len(vs)
         for i in range(n):
@@ -370,6 +379,53 @@ def eval_resolver(case, st=None):
     return out
 
 
+def eval_shared(case, st=None):
+    """one function object on several fields: every field must be judged on its own, in every order."""
+    sites, params = case
+    tag = "sig:" + params
+    base = X.rbase()
+    expected_bad = []
+    for tn, fn_ in sites:
+        f = [f for f in M.get_type(base, tn)["fields"] if f["name"] == fn_][0]
+        f["resolver"] = tag
+        why = _bind_failure(params, f.get("args") or [])
+        if why:
+            expected_bad.append((tn, fn_, why))
+    out = []
+    desc = "rbase with ONE resolver def f(%s) on %s" % (params, ", ".join("%s.%s" % (a, b) for a, b in sites))
+    if st is not None:
+        st.nt(desc)
+    for vi, sm in enumerate(X.shared_orders(base, sites)):
+        for oi, order in enumerate(orders(len(sm["types"]))):
+            verdict, msgs = _verdict_code(sm, order, st)
+            if verdict not in ("valid", "invalid"):
+                return [("resolver:%s:shared" % verdict, "%s: %s" % (desc, msgs))]
+            rmsgs = [m for m in msgs if "esolver" in m]
+            for tn, fn_, why in expected_bad:
+                if not any("%s.%s" % (tn, fn_) in m for m in rmsgs):
+                    out.append(
+                        (
+                            "resolver:shared:missed:%s" % why,
+                            "%s (field order variant %d, type order %s): no resolver error names %s.%s although the call fails (%s); errors %s"
+                            % (desc, vi, order, tn, fn_, why, rmsgs[:3]),
+                        )
+                    )
+                    return out
+            bad_names = {"%s.%s" % (tn, fn_) for tn, fn_, _ in expected_bad}
+            for m in rmsgs:
+                if not any(b in m for b in bad_names):
+                    out.append(
+                        (
+                            "resolver:shared:false-rejection:%s" % _norm_msg(m),
+                            "%s (field order variant %d, type order %s): %s although that field's calls bind" % (desc, vi, order, m),
+                        )
+                    )
+                    return out
+    if st is not None:
+        st.outcome(("shared", len(expected_bad), len(sites)))
+    return out
+
+
 # ------------------------------------------------------------------------------------------
 # E2: histories
 
@@ -387,6 +443,8 @@ MENU = [
     ["merge_resolvers", "Query", "plain", BAD2, True],
     ["decorator", "Query.opt", BAD],
     ["register_subscription", "Query", "req", "sub:x"],
+    ["register_resolver", "Query", "plain", SHARED, True],
+    ["register_resolver", "Query", "req", SHARED, True],
 ]
 
 
@@ -441,6 +499,31 @@ def _run_history(source, history):
     return schema, results
 
 
+def _expected_resolver_failures(schema):
+    """reference verdict for the resolvers currently in effect: [(Type.field, why)] via the binding oracle."""
+    from py_gql.schema import InterfaceType, NonNullType, ObjectType
+
+    out = []
+    for name, t in sorted(schema.types.items()):
+        if name.startswith("__") or not isinstance(t, (ObjectType, InterfaceType)):
+            continue
+        for f in t.fields:
+            r = f.resolver or (t.default_resolver if isinstance(t, ObjectType) else None) or schema.default_resolver
+            tag = M.tag_of(r)
+            if not tag or not tag.startswith("sig:"):
+                continue
+            args = []
+            for a in f.arguments:
+                d = {"name": a.name, "type": ("X!" if isinstance(a.type, NonNullType) else "X"), "pyname": a.python_name}
+                if a.has_default_value:
+                    d["default"] = 0
+                args.append(d)
+            why = _bind_failure(tag[4:].split("#")[0], args)
+            if why:
+                out.append(("%s.%s" % (name, f.name), why))
+    return out
+
+
 def _check_invariant(schema):
     """-> (memo verdict, fresh verdict)"""
     from py_gql.exc import SchemaValidationError
@@ -472,6 +555,18 @@ def eval_history(source, history, st=None):
     if st is not None:
         st.n("evaluations", 2)
     out = []
+    # the fresh verdict itself must be what the resolvers in effect deserve (binding oracle), field by field
+    if not fresh.startswith("crash"):
+        expected = _expected_resolver_failures(schema)
+        missing = [p for p, _ in expected if p not in fresh]
+        if missing or (fresh != "valid" and not expected):
+            out.append(
+                (
+                    "history-verdict-wrong:%s" % ("missed" if missing else "false-rejection"),
+                    "after %s (results %s) on a %s-built schema a fresh validate_schema says %s; the binding oracle expects errors for %s"
+                    % (history, results, source, fresh[:200], [p for p, _ in expected][:6]),
+                )
+            )
     if memo != fresh:
         # culprit = the operation after which the two verdicts first disagree (shortest failing prefix)
         op = history[-1]
@@ -556,6 +651,8 @@ def check_case(case, st):
         for j in case["js"]:
             if st.out_of_time():
                 break
+            if not (X.pairable(a) and X.pairable(vs[j])):
+                continue
             if not X.independent(a, vs[j]):
                 st.n("pairs_skipped_interfering_operators")
                 continue
@@ -565,6 +662,10 @@ def check_case(case, st):
         for rc in X.resolver_cases()[case["lo"] : case["hi"]]:
             for cls, detail in eval_resolver(rc, st):
                 out.append((cls, {"fam": "resolver", "case": list(rc)}, detail))
+    elif fam == "shared-resolver":
+        for sites, params in X.shared_resolver_cases()[case["lo"] : case["hi"]]:
+            for cls, detail in eval_shared((sites, params), st):
+                out.append((cls, {"fam": "shared-resolver", "sites": sites, "params": params}, detail))
     elif fam == "history":
         out.extend(bfs_histories(case["source"], case["depth"], st))
         st.sample({"history menu": [op[0] for op in MENU], "depth": case["depth"]})
@@ -588,6 +689,8 @@ def replay(witness):
         return eval_violations(witness["v"])
     if fam == "resolver":
         return eval_resolver(tuple(witness["case"]))
+    if fam == "shared-resolver":
+        return eval_shared((witness["sites"], witness["params"]))
     if fam == "history":
         return eval_history(witness["source"], witness["history"])[0]
     raise ValueError(fam)
